@@ -80,8 +80,10 @@ func (c08) Gen(r *rand.Rand, tier string, idx int) *core.Plan {
 			p.Ops = append(p.Ops, core.Op{Task: t, Kind: "selectblob", I: []int64{int64(r.IntN(5))}})
 		case x < 16:
 			p.Ops = append(p.Ops, core.Op{Task: t, Kind: "mutate", I: []int64{int64(r.IntN(9))}})
-		case x < 18:
+		case x < 17:
 			p.Ops = append(p.Ops, core.Op{Task: t, Kind: "permute", I: []int64{int64(r.IntN(24))}})
+		case x < 18:
+			p.Ops = append(p.Ops, core.Op{Task: t, Kind: "permute-inplace", I: []int64{int64(r.IntN(24))}})
 		default:
 			p.Ops = append(p.Ops, core.Op{Task: t, Kind: "verify", I: []int64{int64(r.IntN(len(c08Refs)))}})
 		}
@@ -93,6 +95,9 @@ func (c08) Gen(r *rand.Rand, tier string, idx int) *core.Plan {
 		t := r.IntN(ntasks)
 		for i := 0; i < 2+r.IntN(3); i++ {
 			p.Ops = append(p.Ops, core.Op{Task: t, Kind: "verify", I: []int64{int64(r.IntN(len(c08Refs)))}})
+			if r.IntN(3) == 0 {
+				p.Ops = append(p.Ops, core.Op{Task: t, Kind: "permute-inplace", I: []int64{int64(r.IntN(24))}})
+			}
 		}
 	}
 	p.Tape = core.Tape(r, 40, 0.4)
@@ -320,6 +325,13 @@ func (l c08) Exec(env *core.Env) *core.Result {
 					shared = cloneOCI(frozen, nthPerm(nst, op.Int(0)))
 					dirty = true
 					sim.Abstract(fmt.Sprint("permute", op.Int(0)%24))
+				case "permute-inplace":
+					// the SAME document object (and whatever was built on it): its statements are put into another
+					// order in place, as a reload into the same object would do
+					fresh := cloneOCI(frozen, nthPerm(nst, op.Int(0)))
+					copy(shared.TrustPolicies, fresh.TrustPolicies)
+					dirty = true
+					sim.Abstract(fmt.Sprint("permute-inplace", op.Int(0)%24))
 				case "verify":
 					path := c08Refs[int(op.Int(0))%len(c08Refs)]
 					want := specSelect(frozen, path)
